@@ -60,6 +60,20 @@ def edge_shapes(tier):
         cases += A.both_modes("c01c-%d" % j, A.file([A.stanza("(module) @m ", st)]), 1 + j % 3)
         # the same with the definitions in a second stanza (other match, same syntax node)
         cases += A.both_modes("c01c2-%d" % j, A.file([A.stanza("(module) @m ", st[:1]), A.stanza("(module) @m ", st[1:] or [A.node(v("k"))])]), 2)
+    # the body of an attribute shorthand sees its parameter only - not the variables of the block that uses it (the loader does not
+    # look into shorthand bodies, so such a file loads and the run must fail)
+    sh_outer = A.shorthand("sh", "p", [A.attr("a", v("p")), A.attr("b", v("outer"))])
+    sh_loop = A.shorthand("shl", "p", [A.attr("a", A.lst(v("p"), v("it")))])
+    sh_ok = A.shorthand("shk", "p", [A.attr("a", v("p")), A.attr("b", A.listc(A.call("plus", v("q"), i(1)), "q", A.lst(i(1), i(2))))])
+    bodies = [
+        ([A.let(v("outer"), i(1)), A.node(v("n")), A.attrn(v("n"), A.attr("sh", i(2)))], [sh_outer]),
+        ([A.node(v("n")), A.forin("it", A.lst(i(1), i(2)), [A.attrn(v("n"), A.attr("shl", i(2)))])], [sh_loop]),
+        ([A.node(v("n")), A.iff(([A.cond("bool", A.true())], [A.let(v("outer"), i(1)), A.attrn(v("n"), A.attr("sh", i(2)))]))], [sh_outer]),
+        ([A.node(v("n")), A.let(v("q"), i(7)), A.attrn(v("n"), A.attr("shk", i(2)))], [sh_ok]),
+        ([A.node(v("n")), A.node(v("k")), A.edge(v("n"), v("k")), A.let(v("outer"), i(1)), A.attre(v("n"), v("k"), A.attr("sh", i(2)))], [sh_outer]),
+    ]
+    for j, (st, shs) in enumerate(bodies):
+        cases += A.both_modes("c01sh-%d" % j, A.file([A.stanza("(module) @_m ", st)], shorthands=shs), 1 + j % 3)
     return cases
 
 
